@@ -1,7 +1,14 @@
 #!/usr/bin/env python3
-"""seedtest.py <mutout-dir> <id>  — confirm a seeded change (suite green with it, demo red with it, demo green
-without it) in a scratch worktree, then run the property's quick check against /repo with the change applied,
-undo it, and file everything under /verif/seeded/<id>/."""
+"""seedtest.py <mutout-dir> <id> [extra property ...] [--in-place]
+
+Confirms a seeded change (suite green with it, demonstration red with it and green without it) in a scratch
+worktree of /repo, then runs the property's quick check against the changed tree and files everything under
+/verif/seeded/<id>/ (patch.diff, demo_test.go, meta.json).
+
+Default: isolated — the check runs in a private copy of /verif (/tmp/vseed-<id>) with VERIF_REPO pointing at the
+scratch worktree that has the change applied, so that work going on in /verif and /repo is not disturbed.
+--in-place: apply the change to /repo itself (git -C /repo apply), run the checks in /verif, undo it straight
+afterwards (git -C /repo checkout -- .) and re-run the checks to restore the evidence of the clean tree."""
 import json
 import os
 import re
@@ -12,29 +19,40 @@ import sys
 ENV = dict(os.environ, GOFLAGS="-mod=mod", GOPROXY="off", GOSUMDB="off", GOTOOLCHAIN="local")
 
 
-def sh(cmd, cwd=None, timeout=1800):
-    p = subprocess.run(cmd, shell=True, cwd=cwd, env=ENV, stdout=subprocess.PIPE, stderr=subprocess.STDOUT,
+def sh(cmd, cwd=None, timeout=3600, env=None):
+    p = subprocess.run(cmd, shell=True, cwd=cwd, env=env or ENV, stdout=subprocess.PIPE, stderr=subprocess.STDOUT,
                        text=True, timeout=timeout)
     return p.returncode, p.stdout
 
 
+def run_check(prop, cwd, repo):
+    env = dict(ENV, VERIF_REPO=repo)
+    rc, out = sh("python3 check/check.py %s --tier quick" % prop, cwd=cwd, env=env)
+    viol = [l for l in out.splitlines() if l.startswith("VIOLATION")]
+    return dict(rc=rc, detected=(rc == 1 and bool(viol)), lines=viol[:3], tail=out[-800:])
+
+
 def main():
-    src, sid = sys.argv[1], sys.argv[2]
-    extra_props = sys.argv[3:]   # further properties whose checks should be run as well
+    args = [a for a in sys.argv[1:] if not a.startswith("--")]
+    in_place = "--in-place" in sys.argv
+    src, sid = args[0], args[1]
+    extra_props = args[2:]
     meta = json.load(open(os.path.join(src, "meta.json")))
     prop = re.match(r"(C\d+)", sid).group(1)
-    patch = os.path.join(src, "patch.diff")
+    patch = os.path.abspath(os.path.join(src, "patch.diff"))
     demo = os.path.join(src, "demo_test.go")
     first = open(demo).readline()
     m = re.search(r"(pkg/\S+_test\.go|\S+_test\.go)", first)
     place = m.group(1) if m else "pkg/yang/mutdemo_test.go"
-    if not place.startswith("pkg/") and "/" not in place:
+    if "/" not in place:
         place = "pkg/yang/" + place
     wt = "/tmp/seedwt-" + sid
     sh("git -C /repo worktree remove --force %s" % wt)
-    rc, out = sh("git -C /repo worktree add --detach %s HEAD" % wt)
+    sh("git -C /repo worktree add --detach %s HEAD" % wt)
     result = dict(id=sid, property=prop, summary=meta.get("summary"), needs_to_manifest=meta.get("needs_to_manifest"),
-                  files_touched=meta.get("files_touched"), demo_placed_at=place, ran=[])
+                  files_touched=meta.get("files_touched"), demo_placed_at=place, repo_head=sh("git -C /repo rev-parse --short HEAD")[1].strip(),
+                  ran=[])
+    vcopy = "/tmp/vseed-" + sid
     try:
         rc, out = sh("git apply %s" % patch, cwd=wt)
         result["ran"].append(dict(cmd="git apply patch.diff (scratch worktree of /repo HEAD)", rc=rc, out=out[-300:]))
@@ -54,27 +72,32 @@ def main():
         rc3, out3 = sh("go test -count=1 -run 'Mut|Demo|Seed' %s 2>&1 | tail -8" % pkg, cwd=wt)
         demo_green = "FAIL" not in out3 and "ok" in out3
         result["ran"].append(dict(cmd="demo without change", rc=rc3, out=out3[-400:]))
+        os.remove(os.path.join(wt, place))
         result["confirmed"] = bool(suite_green and demo_red and demo_green)
         result["suite_green_with_change"] = suite_green
         result["demo_fails_with_change"] = demo_red
         result["demo_passes_without_change"] = demo_green
+        if result["confirmed"]:
+            result["checks"] = {}
+            if in_place:
+                sh("git -C /repo apply %s" % patch)
+                try:
+                    for p in [prop] + extra_props:
+                        result["checks"][p] = run_check(p, "/verif", "/repo")
+                finally:
+                    sh("git -C /repo checkout -- . && git -C /repo clean -fdq -- pkg")
+                for p in [prop] + extra_props:
+                    run_check(p, "/verif", "/repo")          # restore evidence from the clean tree
+                result["mode"] = "in-place: git -C /repo apply; checks in /verif; git -C /repo checkout -- ."
+            else:
+                sh("git apply %s" % patch, cwd=wt)
+                sh("rm -rf %s && mkdir -p %s && rsync -a --exclude .git --exclude 'evidence/replay' /verif/ %s/" % (vcopy, vcopy, vcopy))
+                for p in [prop] + extra_props:
+                    result["checks"][p] = run_check(p, vcopy, wt)
+                result["mode"] = "isolated: private copy of /verif, VERIF_REPO=scratch worktree with the change applied"
     finally:
         sh("git -C /repo worktree remove --force %s" % wt)
-    if result.get("confirmed"):
-        # run our checks against /repo with the change applied
-        rc, out = sh("git -C /repo apply %s" % patch)
-        try:
-            result["checks"] = {}
-            for p in [prop] + extra_props:
-                rc, out = sh("python3 check/check.py %s --tier quick" % p, cwd="/verif", timeout=3600)
-                viol = [l for l in out.splitlines() if l.startswith("VIOLATION")]
-                result["checks"][p] = dict(rc=rc, detected=(rc == 1 and bool(viol)), lines=viol[:3],
-                                           tail=out[-600:])
-        finally:
-            sh("git -C /repo checkout -- . && git -C /repo clean -fdq -- pkg")
-        # restore evidence from a clean run
-        for p in [prop] + extra_props:
-            sh("python3 check/check.py %s --tier quick" % p, cwd="/verif", timeout=3600)
+        sh("rm -rf %s" % vcopy)
     return finish(src, sid, result)
 
 
@@ -82,7 +105,8 @@ def finish(src, sid, result):
     dst = os.path.join("/verif/seeded", sid)
     os.makedirs(dst, exist_ok=True)
     for f in ("patch.diff", "demo_test.go"):
-        shutil.copy(os.path.join(src, f), os.path.join(dst, f))
+        if os.path.abspath(os.path.join(src, f)) != os.path.abspath(os.path.join(dst, f)):
+            shutil.copy(os.path.join(src, f), os.path.join(dst, f))
     json.dump(result, open(os.path.join(dst, "meta.json"), "w"), indent=1)
     print(json.dumps({k: result.get(k) for k in ("id", "confirmed", "suite_green_with_change", "demo_fails_with_change",
                                                    "demo_passes_without_change", "why")}))
